@@ -157,8 +157,8 @@ type UciRunOut struct {
 	Faults     map[string]int
 	Probes     map[string]int
 	SigHash    uint64 // interleaving signature
-	LeftTimers int  // timer goroutines still alive two fake hours after the session
-	LeftSearch bool // search goroutine still alive
+	LeftTimers int    // timer goroutines still alive two fake hours after the session
+	LeftSearch bool   // search goroutine still alive
 	CleanExit  bool
 	Sim        *Sim
 }
@@ -387,7 +387,7 @@ func clip(s string, n int) string {
 
 // Search phases used for the interleaving signature.
 const (
-	phIdle = iota
+	phIdle      = iota
 	phJustEnded // < 5 fake ms after the previous search ended
 	phIter1
 	phIterLow  // iterations 2-3
